@@ -79,7 +79,7 @@ def canon_msg(m):
         return dict(mo, aux=sorted(mo["aux"]), proxies=sorted(mo["proxies"]),
                     sections=_sort([section(s) for s in mo["sections"]]), symbols=_sort(mo["symbols"]))
 
-    return {"content": {"uuid": c["uuid"], "aux": sorted(c["aux"]), "modules": _sort([module(x) for x in c["modules"]]),
+    return {"content": {"uuid": c["uuid"], "version": c.get("version", "CUR"), "aux": sorted(c["aux"]), "modules": _sort([module(x) for x in c["modules"]]),
                         "edges": _sort(c["edges"])},
             "module_order": list(m["module_order"]), "vertices": sorted(m["vertices"])}
 
@@ -165,7 +165,8 @@ class Mapper:
             return {"src": self.nid(e.source_uuid), "tgt": self.nid(e.target_uuid), "label": lab}
 
         mods = [module(m) for m in msg.modules]
-        return {"content": {"uuid": self.nid(msg.uuid), "aux": [self._auxkey(k) for k in msg.aux_data.keys()], "modules": mods,
+        return {"content": {"uuid": self.nid(msg.uuid), "version": env.version_token(msg.version),
+                            "aux": [self._auxkey(k) for k in msg.aux_data.keys()], "modules": mods,
                             "edges": [edge(e) for e in msg.cfg.edges]},
                 "module_order": [m["uuid"] for m in mods],
                 "vertices": [self.nid(v) for v in msg.cfg.vertices]}
@@ -179,7 +180,7 @@ class Mapper:
         c = rec["content"]
         msg = IR_pb2.IR()
         msg.uuid = U(c["uuid"])
-        msg.version = PROTOBUF_VERSION
+        msg.version = env.to_version(c.get("version", "CUR"))
         for k in c["aux"]:
             msg.aux_data["k%d" % k].type_name = "uint64_t"
             msg.aux_data["k%d" % k].data = (7).to_bytes(8, "little")
